@@ -56,6 +56,7 @@ pub fn run(args: &Args) -> i32 {
             with_closures: true,
             max_stack: 2,
             f1_open,
+            static_slot: true,
         };
         let depth = std::env::var("VERIF_DEPTH").ok().and_then(|s| s.parse().ok()).unwrap_or(args.tier.pick(6, 8));
         let st = crate::c01::run_cfg(args, &mut rep, &mut pool, &cfg, depth, Duration::from_secs(args.tier.pick(35, 8 * 60)), args.tier.pick(500_000, 20_000_000));
